@@ -44,6 +44,7 @@ type retPoint struct {
 }
 
 type Frame struct {
+	dbgAddr  map[string]*ssa.Alloc // address-taken locals by source name
 	fn       *ssa.Function
 	hypIDs   map[*ssa.BasicBlock]int // staged loops: id of the loop at each header
 	spec     *FuncSpec
@@ -142,6 +143,15 @@ func (vc *VC) newFrame(fn *ssa.Function, parent *Frame) *Frame {
 			if d, ok := in.(*ssa.DebugRef); ok {
 				if id, ok := d.Expr.(*ast.Ident); ok && !d.IsAddr {
 					fr.dbg[id.Name] = append(fr.dbg[id.Name], d.X)
+				} else if ok && d.IsAddr {
+					if a, isAlloc := d.X.(*ssa.Alloc); isAlloc && a.Comment == id.Name {
+						if fr.dbgAddr == nil {
+							fr.dbgAddr = map[string]*ssa.Alloc{}
+						}
+						if _, dup := fr.dbgAddr[id.Name]; !dup {
+							fr.dbgAddr[id.Name] = a
+						}
+					}
 				}
 			}
 		}
@@ -496,6 +506,10 @@ func (vc *VC) localNames(fr *Frame, b *ssa.BasicBlock, into map[string]*Val) {
 		if _, ok := into[name]; ok {
 			continue
 		}
+		if a, ok := fr.dbgAddr[name]; ok && a.Block() != nil && (a.Block() == b || a.Block().Dominates(b)) {
+			// lives in a cell: resolved below to the cell's content
+			continue
+		}
 		if _, ok := fr.names[name]; ok {
 			continue
 		}
@@ -515,6 +529,21 @@ func (vc *VC) localNames(fr *Frame, b *ssa.BasicBlock, into map[string]*Val) {
 		}
 		if best != nil {
 			into[name] = fr.vals[best]
+		}
+	}
+	// address-taken locals that are never read as plain values: the variable
+	// is what its cell holds in the state the expression is evaluated in
+	for name, a := range fr.dbgAddr {
+		if _, ok := into[name]; ok {
+			continue
+		}
+		if _, ok := fr.names[name]; ok {
+			continue
+		}
+		if a.Block() != nil && (a.Block() == b || a.Block().Dominates(b)) {
+			if pv, done := fr.vals[a]; done && pv != nil {
+				into[name] = &Val{DerefOf: pv, Ty: a.Type().Underlying().(*types.Pointer).Elem()}
+			}
 		}
 	}
 }
@@ -1055,7 +1084,7 @@ func (vc *VC) execInstr(fr *Frame, in ssa.Instruction) {
 		// the window starting at offset 0 is the array itself (a slice of an
 		// array pointer p has array p and offset 0)
 		vc.assume(fmt.Sprintf("(=> (= (s_off %s) 0) (= %s (s_arr %s)))", x.T, r, x.T))
-		fr.vals[in] = &Val{T: r, Ty: in.Type()}
+		fr.vals[in] = &Val{T: r, Ty: in.Type(), WinArr: fmt.Sprintf("(s_arr %s)", x.T), WinOff: fmt.Sprintf("(s_off %s)", x.T)}
 	case *ssa.MakeInterface:
 		fr.vals[in] = vc.makeInterface(fr, in)
 	case *ssa.TypeAssert:
@@ -1095,6 +1124,7 @@ func (vc *VC) execInstr(fr *Frame, in ssa.Instruction) {
 		v := vc.valueOf(fr, in.Value)
 		mt := in.Map.Type().Underlying().(*types.Map)
 		vc.nilCheck(fr, m.T, pos, "map")
+		vc.atPointAsserts(fr, nil, "mapupdate", []*Val{m, {T: vc.mapKey(mt, vc.coerce(k, mt.Key()).T), Ty: mt.Key()}, vc.coerce(v, mt.Elem())}, in, pos)
 		vc.mapStore(mt, m.T, vc.coerce(k, mt.Key()).T, vc.coerce(v, mt.Elem()).T, pos)
 	case *ssa.Range:
 		vc.rangeStart(fr, in, pos)
@@ -1328,6 +1358,7 @@ func (vc *VC) indexAddr(fr *Frame, in *ssa.IndexAddr, pos token.Pos) *Val {
 	switch u := in.X.Type().Underlying().(type) {
 	case *types.Slice:
 		vc.boundsCheck(fr, i.T, fmt.Sprintf("(s_len %s)", x.T), pos)
+		vc.markIndex(i.T)
 		hn, _ := vc.elemHeap(u.Elem())
 		return &Val{Ty: in.Type(), Loc: &Loc{Kind: RElem, Heap: hn, Base: fmt.Sprintf("(s_arr %s)", x.T), Idx: fmt.Sprintf("(+ (s_off %s) %s)", x.T, i.T), RootT: u.Elem()}}
 	case *types.Pointer:
@@ -1350,6 +1381,15 @@ func (vc *VC) unop(fr *Frame, in *ssa.UnOp, pos token.Pos) *Val {
 	x := vc.valueOf(fr, in.X)
 	switch in.Op {
 	case token.MUL:
+		if x.WinArr != "" {
+			// *(*[N]T)(s): the N elements of s's array from its offset on
+			if at, ok := in.Type().Underlying().(*types.Array); ok {
+				hn, hs := vc.elemHeap(at.Elem())
+				w := vc.arrWindow(fmt.Sprintf("(select %s %s)", vc.get(hn, hs), x.WinArr), x.WinOff, in.Type())
+				nv := &Val{T: vc.define("ld_"+in.Name(), vc.sortOf(in.Type()), w), Ty: in.Type()}
+				return nv
+			}
+		}
 		l := vc.ptrLoc(fr, x, in.X.Type(), pos, "load")
 		if l == nil {
 			return &Val{T: vc.fresh("load", vc.sortOf(in.Type())), Ty: in.Type()}
@@ -1442,7 +1482,11 @@ func (vc *VC) binop(fr *Frame, in *ssa.BinOp, pos token.Pos) *Val {
 			vc.errorf("%s: comparison of addresses known only at translation time", vc.p.fset.Position(pos))
 			eq = vc.fresh("cmp", "Bool")
 		default:
-			eq = fmt.Sprintf("(= %s %s)", x.T, y.T)
+			if _, isArr := in.X.Type().Underlying().(*types.Array); isArr {
+				eq = vc.arrEq(x.T, y.T, in.X.Type())
+			} else {
+				eq = fmt.Sprintf("(= %s %s)", x.T, y.T)
+			}
 		}
 		if in.Op == token.NEQ {
 			eq = "(not " + eq + ")"
@@ -1610,6 +1654,10 @@ func (vc *VC) convert(fr *Frame, in *ssa.Convert) *Val {
 		arr := vc.fresh("bytesOf", "(Array Int "+vc.sortOf(et)+")")
 		vc.emit("(assert (forall ((i Int)) (=> (and (<= 0 i) (< i (slen %s))) (= (select %s i) (sat %s i)))))", x.T, arr, x.T)
 		vc.set(hn, hs, fmt.Sprintf("(store %s %s %s)", vc.get(hn, hs), a, arr))
+		if vc.sortOf(et) == "Int" {
+			// string([]byte(s)) == s
+			vc.assume(fmt.Sprintf("(= (%s %s 0 (slen %s)) %s)", vc.bytes2str(), arr, x.T, x.T))
+		}
 		return &Val{T: fmt.Sprintf("(mk_slice %s 0 (slen %s) (slen %s))", a, x.T, x.T), Ty: in.Type()}
 	case from == "Slice" && to == "Str":
 		s := vc.fresh("strOf", "Str")
@@ -1618,6 +1666,7 @@ func (vc *VC) convert(fr *Frame, in *ssa.Convert) *Val {
 		hn, hs := vc.elemHeap(et)
 		if vc.sortOf(et) == "Int" {
 			vc.emit("(assert (forall ((i Int)) (=> (and (<= 0 i) (< i (s_len %s))) (= (sat %s i) (select (select %s (s_arr %s)) (+ (s_off %s) i))))))", x.T, s, vc.get(hn, hs), x.T, x.T)
+			vc.assume(fmt.Sprintf("(= (%s (select %s (s_arr %s)) (s_off %s) (s_len %s)) %s)", vc.bytes2str(), vc.get(hn, hs), x.T, x.T, x.T, s))
 		}
 		return &Val{T: s, Ty: in.Type()}
 	case from == "Int" && to == "Str":
@@ -1768,8 +1817,12 @@ func (vc *VC) lookup(fr *Frame, in *ssa.Lookup, pos token.Pos) *Val {
 		return v
 	}
 	dn, ds, vn, vs := vc.mapHeaps(mt)
-	present := fmt.Sprintf("(select (select %s %s) %s)", vc.get(dn, ds), x.T, k.T)
-	val := fmt.Sprintf("(ite %s (select (select %s %s) %s) %s)", present, vc.get(vn, vs), x.T, k.T, vc.zeroValue(mt.Elem()))
+	kt := vc.mapKey(mt, k.T)
+	if kt != k.T {
+		kt = vc.define("mk_"+in.Name(), vc.sortOf(mt.Key()), kt)
+	}
+	present := fmt.Sprintf("(select (select %s %s) %s)", vc.get(dn, ds), x.T, kt)
+	val := fmt.Sprintf("(ite %s (select (select %s %s) %s) %s)", present, vc.get(vn, vs), x.T, kt, vc.zeroValue(mt.Elem()))
 	v := &Val{T: vc.define("mv_"+in.Name(), vc.sortOf(mt.Elem()), val), Ty: mt.Elem()}
 	vc.assume(vc.rangeFact(v.T, v.Ty))
 	// a nil map has no entries
@@ -1784,6 +1837,7 @@ func (vc *VC) mapStore(mt *types.Map, m, k, v string, pos token.Pos) {
 	dn, ds, vn, vs := vc.mapHeaps(mt)
 	vc.frameCheck(dn, m, pos)
 	d := vc.get(dn, ds)
+	k = vc.mapKey(mt, k)
 	vc.set(dn, ds, fmt.Sprintf("(store %s %s (store (select %s %s) %s true))", d, m, d, m, k))
 	vh := vc.get(vn, vs)
 	vc.set(vn, vs, fmt.Sprintf("(store %s %s (store (select %s %s) %s %s))", vh, m, vh, m, k, v))
@@ -1793,6 +1847,7 @@ func (vc *VC) mapDelete(mt *types.Map, m, k string, pos token.Pos) {
 	dn, ds, _, _ := vc.mapHeaps(mt)
 	vc.frameCheck(dn, m, pos)
 	d := vc.get(dn, ds)
+	k = vc.mapKey(mt, k)
 	// deleting from a nil map is a no-op
 	vc.set(dn, ds, fmt.Sprintf("(ite (= %s 0) %s (store %s %s (store (select %s %s) %s false)))", m, d, d, m, d, m, k))
 }
@@ -1944,4 +1999,147 @@ func invariantIndices(idxs []string, start int) []string {
 		return nil
 	}
 	return out
+}
+
+// Fixed-size arrays are SMT arrays over all integers; Go compares and hashes
+// only the N elements.  arrCanon rebuilds an array value from its N elements
+// on a constant-zero base, so that two Go-equal arrays become the same SMT
+// value (used for map keys); arrEq is the element-wise comparison.  Both are
+// exact for arrays of at most maxArrUnroll scalar elements; larger arrays or
+// arrays of aggregates are outside the subset.
+const maxArrUnroll = 64
+
+func (vc *VC) arrUnrollable(t types.Type) (*types.Array, bool) {
+	at, ok := t.Underlying().(*types.Array)
+	if !ok {
+		return nil, false
+	}
+	if at.Len() > maxArrUnroll {
+		return at, false
+	}
+	switch vc.sortOf(at.Elem()) {
+	case "Int", "Bool", "Str":
+		return at, true
+	}
+	return at, false
+}
+
+// arrSel is element i of an array term; for the store chains built here the
+// element is read off directly instead of leaving the reduction to the solver.
+func (vc *VC) arrSel(term string, i int64) string {
+	if es, ok := vc.arrElems[term]; ok && i >= 0 && i < int64(len(es)) {
+		return es[i]
+	}
+	return fmt.Sprintf("(select %s %d)", term, i)
+}
+
+func (vc *VC) arrChain(t types.Type, at *types.Array, elems []string) string {
+	r := fmt.Sprintf("((as const %s) %s)", vc.sortOf(t), vc.zeroValue(at.Elem()))
+	for i, e := range elems {
+		r = fmt.Sprintf("(store %s %d %s)", r, i, e)
+	}
+	if vc.arrElems == nil {
+		vc.arrElems = map[string][]string{}
+	}
+	vc.arrElems[r] = elems
+	return r
+}
+
+func (vc *VC) arrCanon(term string, t types.Type) string {
+	at, ok := vc.arrUnrollable(t)
+	if at == nil {
+		return term
+	}
+	if !ok {
+		vc.errorf("array of type %s used as a map key (more than %d elements or aggregate elements: outside subset)", t, maxArrUnroll)
+		return term
+	}
+	if es, known := vc.arrElems[term]; known && int64(len(es)) == at.Len() {
+		return term
+	}
+	var elems []string
+	for i := int64(0); i < at.Len(); i++ {
+		elems = append(elems, vc.arrSel(term, i))
+	}
+	return vc.arrChain(t, at, elems)
+}
+
+// arrWindow is the array value made of n elements of arr starting at off.
+func (vc *VC) arrWindow(arr, off string, t types.Type) string {
+	at, ok := vc.arrUnrollable(t)
+	if at == nil || !ok {
+		vc.errorf("window of array type %s (more than %d elements or aggregate elements: outside subset)", t, maxArrUnroll)
+		return arr
+	}
+	var elems []string
+	offN, offLit := strconv.ParseInt(off, 10, 64)
+	for i := int64(0); i < at.Len(); i++ {
+		if offLit == nil {
+			elems = append(elems, vc.arrSel(arr, offN+i))
+		} else {
+			elems = append(elems, fmt.Sprintf("(select %s (+ %s %d))", arr, off, i))
+		}
+	}
+	return vc.arrChain(t, at, elems)
+}
+
+func (vc *VC) arrEq(x, y string, t types.Type) string {
+	at, ok := vc.arrUnrollable(t)
+	if at == nil {
+		return fmt.Sprintf("(= %s %s)", x, y)
+	}
+	if !ok {
+		vc.errorf("comparison of arrays of type %s (more than %d elements or aggregate elements: outside subset)", t, maxArrUnroll)
+		return fmt.Sprintf("(= %s %s)", x, y)
+	}
+	if at.Len() == 0 {
+		return "true"
+	}
+	var cs []string
+	for i := int64(0); i < at.Len(); i++ {
+		cs = append(cs, fmt.Sprintf("(= %s %s)", vc.arrSel(x, i), vc.arrSel(y, i)))
+	}
+	if len(cs) == 1 {
+		return cs[0]
+	}
+	return "(and " + strings.Join(cs, " ") + ")"
+}
+
+// mapKey is the SMT term under which key k of a map of type mt is stored.
+func (vc *VC) mapKey(mt *types.Map, k string) string {
+	if _, isArr := mt.Key().Underlying().(*types.Array); isArr {
+		return vc.arrCanon(k, mt.Key())
+	}
+	return k
+}
+
+// bytes2str(content, off, len) is the string made of len bytes of an array's
+// content from off on: an uninterpreted function (so equal contents give equal
+// strings; nothing else is known about it), tied to the []byte(s) and
+// string(b) conversions.  strof(b) in contracts.
+func (vc *VC) bytes2str() string {
+	if !vc.declared["bytes2str"] {
+		vc.declare("bytes2str", "(declare-fun bytes2str ((Array Int Int) Int Int) Str)")
+	}
+	return "bytes2str"
+}
+
+// markIndex: idx(j) in a contract is the marker (jmark j), an uninterpreted
+// predicate that is used in triggers only; every slice index the code
+// evaluates (and the position an append writes to) is marked, so that a
+// quantified fact with the trigger {.., idx(j)} is instantiated at the indices
+// the program touches.  (Element reads themselves are poor triggers: their
+// index terms are sums, which the solvers rewrite.)
+func (vc *VC) markIndex(t string) {
+	if !specUsesIdx {
+		return
+	}
+	vc.assume(fmt.Sprintf("(%s %s)", vc.jmark(), t))
+}
+
+func (vc *VC) jmark() string {
+	if !vc.declared["jmark"] {
+		vc.declare("jmark", "(declare-fun jmark (Int) Bool)")
+	}
+	return "jmark"
 }
